@@ -83,6 +83,42 @@ void harness(void) {
 		if (res == KSI_OK && with_doc && level == 255) WITNESS_POINT("OK verdict passed through");
 		if (ver_res == KSI_OK && ver_rc == KSI_VER_RES_NA) WITNESS_POINT("inconclusive verdict becomes a failure code");
 	}
+#elif ENTRY == 2
+	/* with a caller-supplied verification context: the caller may supply a document hash and a level through the
+	 * arguments, through the context, or both.  Property-level oracle: no supplied hash and no supplied level is dropped -
+	 * either the call is refused, or the verifier is consulted with a document hash equal to EVERY supplied one and a
+	 * level not below ANY supplied one; everything else in the context is passed on unchanged. */
+	static KSI_DataHash doc2; memset(&doc2, 0, sizeof(doc2)); doc2.ctx = ctx; doc2.ref = 1; doc2.imprint_length = 21;
+	for (int i = 0; i < 21; i++) doc2.imprint[i] = ND(u8, doc2);
+	doc2.imprint[0] = 0;
+	static KSI_VerificationContext vc; memset(&vc, 0, sizeof(vc));
+	static const struct { const void *a; } m_pub, m_pubfile;
+	vc.ctx = ctx;
+	vc.documentHash = ND_BOOL(ctx_has_doc) ? &doc2 : NULL;
+	vc.docAggrLevel = ND(u64, ctx_level);
+	vc.userPublication = (KSI_PublicationData *)&m_pub; vc.userPublicationsFile = (KSI_PublicationsFile *)&m_pubfile;
+	vc.extendingAllowed = ND_BOOL(ctx_ext) ? 1 : 0;
+	const KSI_DataHash *cdoc = vc.documentHash; KSI_uint64_t clevel = vc.docAggrLevel; int cext = vc.extendingAllowed;
+	int same = 1; for (int i = 0; i < 21; i++) if (doc.imprint[i] != doc2.imprint[i]) same = 0;
+	int res = KSI_Signature_verifyWithPolicy(&sig, d, level, policy, &vc);
+	CHECK(vc.documentHash == cdoc && vc.docAggrLevel == clevel && vc.extendingAllowed == cext && vc.signature == NULL, "C02.H6 the caller's verification context is not modified");
+	if (level > 255) {
+		CHECK(res != KSI_OK && ver_calls == 0, "C02.H6 verifyWithPolicy refuses a level above 255 without consulting the verifier");
+	} else if (ver_calls == 0) {
+		CHECK(res != KSI_OK, "C02.H6 not consulting the verifier is a refusal");
+		CHECK(d != NULL && cdoc != NULL && !same, "C02.H6 with a context the call is refused only for two different document hashes");
+		WITNESS_POINT("two different document hashes refused");
+	} else {
+		CHECK(ver_calls == 1 && seen_policy == policy && seen_sig == &sig, "C02.H6 policy and signature passed on");
+		if (d != NULL) CHECK(seen_doc == d || (seen_doc == cdoc && same), "C02.H6 a document hash supplied as argument is verified even when a context is given");
+		if (cdoc != NULL) CHECK(seen_doc == cdoc || (seen_doc == d && same), "C02.H6 a document hash supplied through the context is verified");
+		if (d == NULL && cdoc == NULL) CHECK(seen_doc == NULL, "C02.H6 no document hash is invented");
+		CHECK(seen_level >= level && seen_level >= clevel && (seen_level == level || seen_level == clevel), "C02.H6 no supplied level is dropped: the verifier sees the larger of argument and context level");
+		CHECK((res == KSI_OK) == (ver_res == KSI_OK && ver_rc == KSI_VER_RES_OK), "C02.H6 verifyWithPolicy returns KSI_OK exactly for an OK verdict");
+		if (d != NULL && cdoc == NULL) WITNESS_POINT("argument hash with a context that has none");
+		if (d == NULL && cdoc != NULL && clevel == 7) WITNESS_POINT("context hash and level only");
+		if (d != NULL && cdoc != NULL && same && res == KSI_OK) WITNESS_POINT("same hash twice");
+	}
 #else
 	ASSUME(with_doc);
 	int res = KSI_verifyDataHash(ctx, &sig, d);
